@@ -11,11 +11,12 @@
 // or memory gauge, including after the program's last statement, i.e. inside commit).
 // The ledger records every SetValue in one trace together with the program's logs, so the
 // position of writes relative to the final log("END") marker (999) is known.
-//   (a) direct checks: a script or a failed transaction with any SetValue, a successful
-//       transaction with a SetValue before END, or an observation script that disagrees with a
-//       Go shadow map is a property failure;
-//   (b) the instruction list of each program, the observed outcome and the projected trace go
-//       to Coq case files evaluated against the executor model of coq/theories/C24/Model.v.
+//
+//	(a) direct checks: a script or a failed transaction with any SetValue, a successful
+//	    transaction with a SetValue before END, or an observation script that disagrees with a
+//	    Go shadow map is a property failure;
+//	(b) the instruction list of each program, the observed outcome and the projected trace go
+//	    to Coq case files evaluated against the executor model of coq/theories/C24/Model.v.
 package main
 
 import (
@@ -173,7 +174,9 @@ type Op struct {
 var failKinds = []string{"panic", "assert", "nilUnwrap", "forceCast", "overflow", "divZero", "oob", "arrOOB", "loadMismatch"}
 var flushKinds = []string{"storage.used", "storage.capacity", "account-creation"}
 
-func isFlush(k string) bool { return k == "storage.used" || k == "storage.capacity" || k == "account-creation" }
+func isFlush(k string) bool {
+	return k == "storage.used" || k == "storage.capacity" || k == "account-creation"
+}
 
 func acct(script bool, a int) string {
 	if script {
@@ -761,14 +764,14 @@ func (it item) coq() string {
 
 type runner struct {
 	broken bool // the ledger was left inconsistent by a failed transaction's partial commit: end the history
-	sum   *lib.Summary
-	rng   *lib.Rng
-	cw    *lib.CaseWriter
-	dist  map[string]bool
-	chain *chain
-	sh    *shadow
-	vm    bool
-	hist  []item
+	sum    *lib.Summary
+	rng    *lib.Rng
+	cw     *lib.CaseWriter
+	dist   map[string]bool
+	chain  *chain
+	sh     *shadow
+	vm     bool
+	hist   []item
 }
 
 func (r *runner) fail(key, what string, it item) {
@@ -1127,7 +1130,7 @@ func main() {
 	}
 	nhist := 60
 	if *tier == "thorough" {
-		nhist = 1500
+		nhist = 1000
 		cw.PerFile = 25
 	}
 	sum.Rule = "one case = one chain history of 6-10 scripts / transactions / contract-function calls, each followed by an observation script " +
